@@ -115,3 +115,42 @@ Proof.
   exists b0, b. split; [exact E0|]. split; [exact Eb|]. cbv zeta.
   intros i e tr. now apply query_by_ones.
 Qed.
+
+(** * membership through Get1 / SafeGet1 on a built bitmap *)
+Lemma member_In s i : member s i = true <-> In i s.
+Proof.
+  unfold member. rewrite existsb_exists. split.
+  - intros (p & Hp & E). apply Z.eqb_eq in E. now subst.
+  - intros H. exists i. split; [exact H|apply Z.eqb_refl].
+Qed.
+
+Theorem SafeGet1_member ws s :
+  ones (flat ws) = s -> forall i, SafeGet1 ws i = Some (Z.b2z (member s i)) /\
+                                 (SafeGet ws i = Some 0 <-> ~ In i s).
+Proof.
+  intros Hs i. rewrite SafeGet1_total, SafeGet_total. unfold spec_SafeGet1, spec_SafeGet, spec_Get1, spec_Get.
+  assert (Hnz : 2 ^ (i mod 64) <> 0) by (apply pow2_nonzero; apply Z.mod_pos_bound; lia).
+  destruct (inside ws i) eqn:E.
+  - apply inside_iff in E. rewrite bitz_member by lia. rewrite Hs.
+    split; [reflexivity|]. rewrite <- member_In.
+    destruct (member s i); split; intros H; congruence.
+  - assert (Hni : ~ In i s).
+    { intros Hin. rewrite <- Hs in Hin. apply ones_In_wbit in Hin. destruct Hin as [H0 Hb].
+      apply wbit_lt in Hb; [|exact H0].
+      assert (inside ws i = true) by (apply inside_iff; lia). congruence. }
+    split; [|tauto].
+    destruct (member s i) eqn:Em; [|reflexivity]. apply member_In in Em. contradiction.
+Qed.
+
+(** Of(ps, n) for ascending ps: SafeGet1 at ANY integer i says whether i is listed; Get/Get1 the same inside *)
+Theorem Of_membership ps opt :
+  StronglySorted Z.lt ps -> (forall p, In p ps -> 0 <= p) ->
+  exists r, Of ps opt = Some r /\
+    (forall i, SafeGet1 r i = Some (Z.b2z (member ps i)) /\ (SafeGet r i = Some 0 <-> ~ In i ps)) /\
+    (forall i, 0 <= i < 64 * zlen r -> Get1 r i = Some (Z.b2z (member ps i)) /\ (Get r i = Some 0 <-> ~ In i ps)).
+Proof.
+  intros Hs Hnn. destruct (Of_ascending ps opt Hs Hnn) as (r & E & Hok & Hlen & Hones).
+  exists r. split; [exact E|]. split.
+  - intros i. now apply SafeGet1_member.
+  - intros i Hi. destruct (SafeGet_inside r i Hi) as [<- <-]. now apply SafeGet1_member.
+Qed.
